@@ -1073,9 +1073,10 @@ theorem factorText_sound_atomic (e : Env) (ht : TextOK e) (on : Bool) (fuel : Na
       = m e (.atomic (toPat false (.alt o cs))) false st :=
   atomic_eq_of_headEq (NEq.headEq (m_factorText e _ (redSound_reduceNode e ht on fuel) true o cs)) st
 
-/-- `abc|abd|x` ⇒ `ab[cd]|x` (prefix "ab" extracted, the rest merged into a set, the concatenation rebuilt) -/
+/-- `abc|abd|x` ⇒ `ab[cd]|x` (prefix "ab" extracted, the rest merged into a set — which keeps the `Ch` of the
+    One it grew from, `mergedOpts` —, the concatenation rebuilt) -/
 example : RNode.same (reduceNode false true false 10 false altAbcAbdX)
-    (.alt 0 [.cat 0 [.multi 0 [97, 98], .chr 0 (.set (.base false [(99, 100)] []))], .chr 0 (.one 120)]) = true := by decide
+    (.alt 0 [.cat 0 [.multi 0 [97, 98], .chr (99 * 65536) (.set (.base false [(99, 100)] []))], .chr 0 (.one 120)]) = true := by decide
 
 example : m (env [97, 98, 100]) (toPat false altAbcAbdX) false st0 = [⟨3, []⟩] := by decide
 
@@ -1096,7 +1097,7 @@ theorem factorSet_sound_atomic (e : Env) (ht : TextOK e) (on : Bool) (fuel : Nat
 example : RNode.same
     (reduceNode false true false 10 false (.alt 0 [.cat 0 [.cloop 0 .greedy (.one 97) 2 (some 2), .chr 0 (.one 120)],
       .cat 0 [.cloop 0 .greedy (.one 97) 2 (some 2), .chr 0 (.one 121)]]))
-    (.cat 0 [.cloop 0 .greedy (.one 97) 2 (some 2), .chr 0 (.set (.base false [(120, 121)] []))]) = true := by decide
+    (.cat 0 [.cloop 0 .greedy (.one 97) 2 (some 2), .chr (120 * 65536) (.set (.base false [(120, 121)] []))]) = true := by decide
 
 example : RNode.same
     (reduceNode false true false 10 false (.alt 0 [.cat 0 [.cloop 0 .greedy (.one 97) 2 (some 2), .chr 0 (.one 120)],
@@ -1123,7 +1124,7 @@ theorem mergeLetters_sound_partial (e : Env) (ht : TextOK e) (rtl : Bool) (o : N
 example : RNode.same
     (mkAlt 0 (mergeLetters false [.chr 0 (.one 97), .alt 0 [.chr 0 (.one 99), .chr 0 (.one 100)], .multi 0 [120, 121], .nothing,
       .chr 0 (.one 98)]))
-    (.alt 0 [.chr 0 (.set (.base false [(97, 97), (99, 100)] [])), .multi 0 [120, 121], .chr 0 (.one 98)]) = true := by decide
+    (.alt 0 [.chr (97 * 65536) (.set (.base false [(97, 97), (99, 100)] [])), .multi 0 [120, 121], .chr 0 (.one 98)]) = true := by decide
 
 /-- why the overlapping case is excluded: `a|a` has its success twice, `[a]` once — no context can tell
     (the later duplicate leads to the same continuation), but the lists differ -/
